@@ -478,6 +478,24 @@ class DirWorld:
         k = next(x for x in self.case["kids"] if x["name"] == name)
         sel = self.case["sb"] + "/" + name
         self.active = False
+        # gamma: the request form must be able to CARRY the exact selector.  pygopherd strips every TAB-separated field
+        # of a Gopher request line, so a selector with a leading / trailing blank cannot be expressed in Gopher at all
+        # (`/d/note ` arrives as `/d/note`); such a child is requested through HTTP with the selector percent-encoded.
+        via = "H" if name != name.strip() else "G"
+        if via == "H":
+            data, _tls = request_bytes("H", sel, self.waptop)
+            r = self.w.request(data)
+            head, sep, body = r.out.partition(b"\r\n\r\n")
+            if r.escaped is not None:
+                got = "none"
+            elif k["kind"] == "file" and head.startswith(b"HTTP/1.0 200 OK") and sep and body == self._content(k):
+                got = "content"
+            elif is_refusal("H", r.out):
+                got = "error"
+            else:
+                st, _i = lex("H", r.out, self.footers, self.waptop)
+                got = "menu" if st == "ok" else "other"
+            return {"ev": "fetch", "name": name, "got": got, "via": via}, {"raw": r.out[:200].decode("latin-1"), "log": r.log[-2:]}
         r = self.w.request(sel.encode("utf-8", "surrogateescape") + b"\r\n")
         if r.escaped is not None:
             got = "none"
